@@ -280,6 +280,7 @@ fn canon_cell(v: &samyama::query::Value, nm: &IdNames) -> String {
 }
 
 pub fn run_config(case: &Case, cfg: &Config, text: &str, windowed: bool) -> Res {
+    let intermediate = has_intermediate_window(&case.q);
     let (store, names) = match build_config_store_named(case, cfg) {
         Ok(s) => s,
         Err(e) => return Res::Panic(format!("building the store failed: {e}")),
@@ -291,7 +292,12 @@ pub fn run_config(case: &Case, cfg: &Config, text: &str, windowed: bool) -> Res 
         let b = ex.execute(&q).map_err(|e| e.to_string())?;
         let mut rows: Vec<String> = b.records.iter().map(|r| b.columns.iter().map(|c| r.get(c).map(|v| canon_cell(v, &names)).unwrap_or_else(|| "missing".into())).collect::<Vec<_>>().join(" | ")).collect();
         if windowed {
-            // which rows a window keeps is not determined: compare the size only
+            // which rows a window keeps is not determined: compare the size only — and not even
+            // that when the window sits in a WITH, because later clauses expand whichever rows
+            // it kept (`… WITH a LIMIT 2 MATCH (a)-->(d) …`)
+            if intermediate {
+                return Ok(vec!["<rows not determined: SKIP/LIMIT inside a WITH>".to_string()]);
+            }
             return Ok(vec![format!("<{} rows>", rows.len())]);
         }
         rows.sort();
@@ -302,6 +308,11 @@ pub fn run_config(case: &Case, cfg: &Config, text: &str, windowed: bool) -> Res 
         Ok(Err(_)) => Res::Refused,
         Err(p) => Res::Panic(p),
     }
+}
+
+/// SKIP/LIMIT inside a WITH (anything but the final RETURN of a part)
+pub fn has_intermediate_window(q: &Query) -> bool {
+    q.parts.iter().flatten().any(|c| matches!(c, Clause::With { proj, .. } if proj.skip.is_some() || proj.limit.is_some()))
 }
 
 fn windowed(q: &Query) -> bool {
@@ -369,7 +380,7 @@ pub fn judge(case: &Case, configs: &[Config], kf: &Active) -> Verdict {
     }
     let first = &out.results[0].1;
     if out.results.iter().all(|(_, r)| r == first) {
-        let nontrivial = matches!(first, Res::Rows(r) if !r.is_empty() && r[0] != "<0 rows>");
+        let nontrivial = matches!(first, Res::Rows(r) if !r.is_empty() && r[0] != "<0 rows>" && !r[0].starts_with("<rows not determined"));
         return Verdict::Same { nontrivial, refused: matches!(first, Res::Refused) };
     }
     let axes = out.axes();
@@ -412,7 +423,7 @@ pub fn run(args: &Args) {
         "exploration",
         "graph history (reference graph built with decoy nodes/relationships created and deleted for id reuse, decoy property values fixed later) x read query from the C01 grammar, executed under the cross product {no index, index on every (label, property) declared before the data, declared after} x {never compacted, compact_adjacency mid-history, at the end, twice (two frozen segments) before a late section that deletes and re-creates reference relationships} x {legacy, graph-native planner} x {SAMYAMA_FILTER_PARALLEL_COST 0, 1e9}; twin stores are built from the same operation list and returned nodes/relationships are compared by the reference entity they stand for; every configuration must give the same normalised bag (or all refuse). Non-trivial = the common answer is non-empty; distinct = distinct (history, query).",
     );
-    ev.assume("queries with SKIP/LIMIT are compared by row count only (which rows a window keeps is not determined without a total order)");
+    ev.assume("queries with SKIP/LIMIT in the final RETURN are compared by row count only (which rows a window keeps is not determined without a total order); with SKIP/LIMIT inside a WITH not even the count is determined (later clauses expand whichever rows were kept), so only agreement on refusal is compared (class undetermined_intermediate_window)");
     ev.assume("separate-process runs are covered by the fixed-seed determinism of the in-process runs plus the cross-process replay in the thorough tier; hash seeds differ between the twin stores of one run already (RandomState per map)");
     let kf = Known::load(args);
     let configs = all_configs();
@@ -493,6 +504,12 @@ pub fn run(args: &Args) {
                     e.class("all_refuse");
                 } else {
                     e.class("all_agree");
+                    if has_intermediate_window(&case.q) {
+                        e.class("undetermined_intermediate_window");
+                    }
+                    if case.ops.iter().any(|o| matches!(o, Op::Churn { .. })) {
+                        e.class("history_with_late_delete_recreate");
+                    }
                     for t in &tags {
                         e.class(&format!("tag:{t}"));
                     }
